@@ -119,6 +119,31 @@ def _organic(item, out):
             except Exception as e:
                 eq = "EXC:" + type(e).__name__
             oc["compared"] = oc.get("compared", 0) + 1
+            # the same comparison through the class-level entry point (defaults: stereo_complete=True), called after an import
+            # with other options in the same process; lone-pair descriptors cannot come from coordinates and are removed
+            try:
+                StereoMolGraph.from_rdmol(mol, stereo_complete=False)
+                g_cm = StereoMolGraph.from_rdmol(mol)
+                for a, d in list(g_cm.atom_stereo.items()):
+                    if None in d.atoms:
+                        g_cm.delete_atom_stereo(a)
+                for b, d in list(g_cm.bond_stereo.items()):
+                    if None in d.atoms:
+                        g_cm.delete_bond_stereo(tuple(b))
+                g_cm = _strip_nondouble(g_cm, dbl)
+                g_geo2 = StereoMolGraph.from_geometry(Geometry(els, xyz))
+                for b, d in list(g_geo2.bond_stereo.items()):
+                    if None in d.atoms:
+                        g_geo2.delete_bond_stereo(tuple(b))
+                g_geo2 = _strip_nondouble(g_geo2, dbl)
+                eq2 = (g_cm == g_geo2) and (g_geo2 == g_cm)
+            except Exception as e:
+                eq2 = "EXC:" + type(e).__name__
+            if eq2 is not True and eq is True:
+                out["viol"].append({"sig": "C14/organic/classmethod-from_rdmol", "input": f"{can}|seed{s}",
+                                    "what": f"{can} (embedding seed {s}): StereoMolGraph.from_rdmol(mol) == graph from coordinates is {eq2} "
+                                            f"although the converter with the same options agrees with the coordinates",
+                                    "item": item, "detail": None})
             if eq is not True:
                 ma, mg = U.from_real(g_ann), U.from_real(g_geo)
                 what = []
